@@ -241,7 +241,7 @@ class Tokenizer:
         if not self._lines and self._path:
             # read once: every '=' debug field of an f-string asks for lines, and re-reading the file from its first
             # line each time is quadratic in the number of such fields
-            with open(self._path, encoding="utf-8") as f:
+            with open(self._path, encoding="utf-8-sig") as f:
                 self._lines = dict(enumerate(f, 1))
 
         return [self._lines.get(n, "") for n in line_numbers]
